@@ -156,7 +156,10 @@ pub fn string(ftx: &FunctionContext, This(this): This<Value>) -> Result<Value> {
         #[cfg(feature = "chrono")]
         Value::Timestamp(t) => Value::String(t.to_rfc3339().into()),
         #[cfg(feature = "chrono")]
-        Value::Duration(v) => Value::String(crate::duration::format_duration(&v).into()),
+        Value::Duration(v) => match v.num_nanoseconds() {
+            Some(_) => Value::String(crate::duration::format_duration(&v).into()),
+            None => return Err(ftx.error("duration out of range")),
+        },
         Value::Int(v) => Value::String(v.to_string().into()),
         Value::UInt(v) => Value::String(v.to_string().into()),
         Value::Float(v) => Value::String(v.to_string().into()),
